@@ -345,7 +345,6 @@ macro_rules! impl_tryfrom_float {
 impl_tryfrom_float!(f32);
 impl_tryfrom_float!(f64);
 
-// TODO: Shitty way of rounding integers
 macro_rules! impl_tryfrom_integer {
     ($from:ty, $intermediate:ty) => {
         impl<'a> TryFrom<Token<'a>> for $from {
@@ -358,19 +357,30 @@ macro_rules! impl_tryfrom_integer {
                             if matches!(e, lexical_core::Error::InvalidDigit(_)) {
                                 let value = lexical_core::parse::<$intermediate>(value)?;
 
-                                if !value.is_normal() {
+                                // Limits of the values which round into range. `MAX + 1.0` and
+                                // `value - MIN` are exact, or absorbed towards the exact power of two.
+                                const MAX: $intermediate = <$from>::MAX as $intermediate;
+                                const MIN: $intermediate = <$from>::MIN as $intermediate;
+                                if value.is_nan() || value >= MAX + 1.0 {
                                     Err(lexical_core::Error::Overflow(0).into())
-                                } else if value > (<$from>::MAX as $intermediate) {
-                                    Err(lexical_core::Error::Overflow(0).into())
-                                } else if value < (<$from>::MIN as $intermediate) {
+                                } else if value - MIN <= -1.0 {
                                     Err(lexical_core::Error::Underflow(0).into())
                                 } else {
                                     // <f32|f64>::round() doesn't exist in no_std...
-                                    // Safe because value is checked to be normal and within bounds earlier
-                                    if value.is_sign_positive() {
-                                        Ok(unsafe { (value + 0.5).to_int_unchecked() })
+                                    // Truncate (cannot saturate, value is within bounds) and
+                                    // round half away from zero on the exact remainder.
+                                    let truncated = value as $from;
+                                    let remainder = value - (truncated as $intermediate);
+                                    if remainder >= 0.5 {
+                                        truncated
+                                            .checked_add(1)
+                                            .ok_or(lexical_core::Error::Overflow(0))
+                                    } else if remainder <= -0.5 {
+                                        truncated
+                                            .checked_sub(1)
+                                            .ok_or(lexical_core::Error::Underflow(0))
                                     } else {
-                                        Ok(unsafe { (value - 0.5).to_int_unchecked() })
+                                        Ok(truncated)
                                     }
                                 }
                             } else {
